@@ -8,7 +8,7 @@ open CJ.RelayClock
 def relayLoopStmts : List LStmt := [
   .read,
   .other,
-  .writeIfData,
+  .unknown,
   .breakIfReadErr,
   .arm true .stall,
   .retIfErr true,
